@@ -41,6 +41,8 @@ struct Shared {
     tcp_frames: Vec<Vec<(u64, Vec<u8>)>>,
     tcp_done: Vec<Option<String>>,
     handed_at: Vec<Vec<u64>>,
+    /// per query: instants at which a complete UDP answer reached a socket erbium had open
+    delivered_udp: Vec<Vec<u64>>,
     /// latest instant by which erbium can have had the complete query (TCP: after the last
     /// segment was written plus one link latency)
     arrived_hi: Vec<u64>,
@@ -160,7 +162,9 @@ async fn upstream_udp(k: Arc<Kernel>, plan: Arc<PlanB>, sh: Sh, ui: usize, mut r
                     s.replies.push(UpReply { serial, qidx: qi, upstream: ui, tcp: false, msg, handed_ns: handed, handed_hi_ns: handed, as_sent_is_msg: true });
                     s.handed_at[qi].push(handed);
                 }
-                k.inject_udp(dst, src, UP_IF, &bytes);
+                if k.inject_udp(dst, src, UP_IF, &bytes) && as_sent {
+                    sh.lock().unwrap().delivered_udp[qi].push(handed);
+                }
             });
         };
         match &spec.up {
@@ -169,6 +173,11 @@ async fn upstream_udp(k: Arc<Kernel>, plan: Arc<PlanB>, sh: Sh, ui: usize, mut r
             UpBehaviour::AnswerFrom { nth: from, delay_ms } => {
                 if nth > *from {
                     reply_now(*delay_ms, false, false, false)
+                }
+            }
+            UpBehaviour::Pattern { mask, delays_ms } => {
+                if nth >= 1 && nth <= 8 && mask & (1 << (nth - 1)) != 0 {
+                    reply_now(delays_ms.get(nth as usize - 1).copied().unwrap_or(5), false, false, false)
                 }
             }
             UpBehaviour::Dup { gap_ms } => {
@@ -432,7 +441,7 @@ pub async fn run_async(plan: Arc<PlanB>, opts: &ExecB) -> RunResult {
     crate::interpose::arm(plan.seed, plan.wall_base, plan.qid_bits);
     let t0 = Instant::now();
     let nq = plan.queries.len();
-    let sh: Sh = Arc::new(Mutex::new(Shared { seen: vec![vec![]; nq], tcp_frames: vec![vec![]; nq], tcp_done: vec![None; nq], handed_at: vec![vec![]; nq], arrived_hi: vec![0; nq], ..Default::default() }));
+    let sh: Sh = Arc::new(Mutex::new(Shared { seen: vec![vec![]; nq], tcp_frames: vec![vec![]; nq], tcp_done: vec![None; nq], handed_at: vec![vec![]; nq], delivered_udp: vec![vec![]; nq], arrived_hi: vec![0; nq], ..Default::default() }));
 
     /* upstream actors */
     for (ui, ip) in plan.upstreams.iter().enumerate() {
@@ -602,6 +611,7 @@ fn evaluate(plan: &PlanB, kernel: &Arc<Kernel>, sh: &Sh, sent_at_ns: &[u64], _en
             UpBehaviour::Normal { .. } => Some("upstream.slow"),
             UpBehaviour::Silent => Some("upstream.silent"),
             UpBehaviour::AnswerFrom { .. } => Some("upstream.first_transmissions_lost"),
+            UpBehaviour::Pattern { .. } => Some("upstream.drop_pattern_over_transmissions"),
             UpBehaviour::Dup { .. } => Some("upstream.duplicate_reply"),
             UpBehaviour::WrongId => Some("upstream.wrong_id_reply"),
             UpBehaviour::Tc => Some("upstream.truncated_udp_reply"),
@@ -846,7 +856,19 @@ fn evaluate(plan: &PlanB, kernel: &Arc<Kernel>, sh: &Sh, sent_at_ns: &[u64], _en
                             if q.after_faults {
                                 res.probe("C07.recovery_probe");
                             }
-                            if rcode == 2 && (touched || key_count[&key_of(q)] > 1) {
+                            if rcode == 2 && key_count[&key_of(q)] == 1 && only_own_udp_loss(plan, q) && g.delivered_udp[qi].iter().any(|t| *t < *at_ns) {
+                                /* nothing but loss of some transmissions of this very exchange, and a
+                                 * complete answer reached an open socket before erbium gave up */
+                                res.violate(
+                                    "C07",
+                                    "C07.servfail_although_a_retransmission_was_answered",
+                                    format!("{} got SERVFAIL [{}] at {} ns although a complete upstream answer was delivered to an open socket at {:?} ns (behaviour {:?}; transmissions seen {:?})", q.qname.to_text(), ede, at_ns, g.delivered_udp[qi], q.up, g.seen[qi]),
+                                    qi,
+                                );
+                            } else if rcode == 2 && (touched || key_count[&key_of(q)] > 1) {
+                                if g.delivered_udp[qi].is_empty() && matches!(q.up, UpBehaviour::Pattern { .. } | UpBehaviour::AnswerFrom { .. } | UpBehaviour::Silent) {
+                                    res.probe("C07.servfail_after_every_transmission_was_lost");
+                                }
                                 res.probe("C07.servfail_after_fault");
                             } else if rcode == 2 && g.replies.iter().any(|r| r.qidx == qi) {
                                 res.violate("C03", "C03.upstream_answer_replaced_by_servfail", format!("clean query {} got SERVFAIL [{}] although upstream answered (behaviour {:?}/{:?}; answer spec {:?})", q.qname.to_text(), ede, q.up, q.up_tcp, q.ans), qi);
@@ -1070,6 +1092,21 @@ fn evaluate(plan: &PlanB, kernel: &Arc<Kernel>, sh: &Sh, sent_at_ns: &[u64], _en
 }
 
 /// No fault touched this query or its upstream exchange (DESIGN.md section 4).
+/// The only fault that can have touched this UDP query is loss of some transmissions of
+/// its own upstream exchange.
+fn only_own_udp_loss(plan: &PlanB, q: &QuerySpec) -> bool {
+    if q.tcp || q.after_faults || q.dup_in {
+        return false;
+    }
+    if plan.out_loss_p > 0.0 || plan.out_dup_p > 0.0 || plan.out_delay_p > 0.0 || plan.qid_bits < 16 {
+        return false;
+    }
+    if !plan.clock_jumps.is_empty() {
+        return false;
+    }
+    matches!(q.up, UpBehaviour::Pattern { .. } | UpBehaviour::AnswerFrom { .. })
+}
+
 fn is_clean(plan: &PlanB, q: &QuerySpec) -> bool {
     if q.after_faults {
         /* probabilistic network faults have stopped 200 s before; its own exchange is well behaved */
